@@ -9,8 +9,8 @@ concrete instances:
 
 * compile-time limits of src/thrift (nesting depth of skipped unknown fields, list lengths),
 * no BOOLEAN dictionary (NOT_IMPLEMENTED since fix F54), levels within `int16_t`,
-* no EMPTY data page (see `pagesNonEmpty`: `carquet_column_read_batch` ends a call at a page without
-  values — finding F62),
+* (data pages WITHOUT values are inside the claim since repair F63: the column reader steps over them;
+  the former conjunct `pagesNonEmpty` is kept below only for `C06_regression_F63`),
 * fread mode only: every page header lies within the largest window `read_page_header_fread` tries
   (fix F53): 2^24 bytes.
 -/
@@ -80,12 +80,13 @@ def zipWith3 {α β γ δ : Type} (f : α → β → γ → δ) : List α → Li
 
 /-! ### per chunk, per file -/
 
-/-- no data page of the chunk is empty -/
+/-- no data page of the chunk is empty (the region the claim excluded before repair F63; no longer
+part of `chunkClaimed`) -/
 def pagesNonEmpty (cl : ChunkLayout) : Bool := cl.pages.all (fun p => decide (0 < p.count))
 
 /-- a chunk inside carquet's claimed set (beyond `chunkAdm`) -/
 def chunkClaimed (fread : Bool) (leaf : LeafInfo) (cl : ChunkLayout) (es : Chunk) : Bool :=
-  chunkExtrasDepthOk cl && pagesNonEmpty cl && (cl.dict.isNone || leaf.ptype != .boolean) &&
+  chunkExtrasDepthOk cl && (cl.dict.isNone || leaf.ptype != .boolean) &&
   decide (leaf.maxDef < 32768) && decide (leaf.maxRep < 32768) && decide (leaf.path.length ≤ 100) &&
   decide ((usedEncodings cl).length ≤ 100) &&
   (!fread || chunkWindowOk leaf cl es)
